@@ -9,3 +9,5 @@ import TddaVerif.Props.C16
 import TddaVerif.Py.Text
 import TddaVerif.Model.CheckStrings
 import TddaVerif.Drv.C04
+import TddaVerif.Model.RefTestCase
+import TddaVerif.Drv.C19
